@@ -122,7 +122,7 @@ impl Check for C22Check {
             oracle: if fd { "hooks-fd" } else { "hooks-tree" }.into(),
             program,
             cfg,
-            extra: json!({}),
+            extra: json!({"dfs": st.consumer.chance(1, 8)}),
         }
     }
 
@@ -140,7 +140,7 @@ impl Check for C22Check {
     fn rule(&self) -> String {
         "case = eq/diseq/conde/fresh program or CLP(FD) program run with an instrumented User type (counts with_constraint and \
          take_constraint calls, checks every process_extension argument against the substitution, carries a per-branch tag \
-         log) with probe goals between the goals, a tag at the head of every conde clause and an observer as last goal, x \
+         log) with probe goals between the goals, a tag at the head of every conde clause and an observer as last goal (one case in eight as the body of a dfs block), x \
          (constraint-store iteration order, yields). Oracle: at every probe and at the observer, in whatever state reaches \
          it, with_calls - take_calls = number of stored constraints and every extension binding is in the substitution; \
          tree programs: the multiset of (answer, tag log, process_extension call count) at the observer equals the reference \
@@ -153,7 +153,7 @@ impl Check for C22Check {
     fn run(&self, case: &Case) -> CaseResult {
         let mut facts = Facts::default();
         let p = &case.program;
-        let run = run_program(p, &case.cfg, 100_000, false);
+        let run = run_program(&exec_program(case), &case.cfg, 100_000, false);
         facts.trace_hash = run.stats.trace_hash;
         facts.stats.push(run.stats.clone());
         match &run.end {
